@@ -117,11 +117,11 @@ known("F2", SCP,
       "only ever returns Empty (src/sync/mpsc.rs try_recv, src/rt/mpsc.rs)",
       ["missing_outcome", "missed_deadlock"], "try_recv_race",
       case("C09", "known", "t0: spawn(1); TryRecv; join(1) || t1: Send(v=1)"))
-known("F2b", SCP,
+known("F2b", SCP + ["C15"],
       "dropping the Receiver (emptiness test in Receiver::drop) is not a scheduling point: a send that can take effect after the "
       "receiver was dropped is explored only in the order send-before-drop, so the `Messages leaked` report of the other order is "
       "never produced: main: send(1) || t1: send(2) || t2 owns the receiver and exits",
-      ["missed_leak", "missing_outcome"], "label:send_after_rx_drop",
+      ["missed_leak", "missing_outcome", "bounded_only_failure", "bounded_result_not_in_unbounded"], "label:send_after_rx_drop",
       case("C09", "known", "t0: spawn(1); spawn(2); Send(v=1); join(1); join(2) || t1: Send(v=2) || t2: Yield", rx_owner=2))
 
 known("F5a", SCP,
@@ -161,6 +161,14 @@ known("F12", ["C02", "C18"],
       ["missing_outcome_fence_order"], "label:sc_fence_order",
       case("C02", "known", JOIN3 + "ld(x0,rlx); ld(x1,rlx); ld(x2,rlx) || t1: st(x2,1,sc); fence(sc); st(x0,1,rlx) || "
            "t2: ld(x0,rlx); st(x1,1,rlx) || t3: ld(x1,rlx); fence(sc); ld(x2,sc)"))
+
+known("F13", ["C15"],
+      "an operation that follows yield_now can never be ordered before the dependent operation of another thread by the unbounded "
+      "partial-order reduction (the backtrack point schedules the thread, which then only yields and is deprioritised), although the "
+      "preemption-bounded run of the same program does explore that order: t0: lock; cv.wait; notify_all; unlock || t1: yield; notify_one "
+      "deadlocks (lost notification) with preemption_bound=2 but the unbounded run completes",
+      ["bounded_only_failure", "bounded_result_not_in_unbounded"], "has_yield",
+      case("C15", "known", "t0: spawn(1); Lock(m=0); CvWait(cv=0,m=0); NotifyAll(cv=0); Unlock(m=0); join(1) || t1: Yield; NotifyOne(cv=0)", x={"n": 2}))
 
 if __name__ == "__main__":
     out = os.path.join(os.path.dirname(os.path.abspath(__file__)), "..", "known_findings.json")
